@@ -222,3 +222,37 @@ func Harness_C18_blacklist_reload() {
 	}
 	verif_Cover("C18.reload.done")
 }
+
+// Several addresses at once: one banned for good, one banned for a while. Whatever the periodic
+// clean-up finds to do for the one, the other's ban is untouched - the permanent ban survives a
+// clean-up that collects somebody else's expired ban, and an unexpired temporary ban survives too.
+func Harness_C18_two_addresses() {
+	now := c18Base
+	verif_ClockSet(now)
+	cfg := &BruteForceConfig{MaxFailures: 3, TimeWindow: time.Hour, BanDuration: time.Hour, PermanentBanAt: 100, CleanupInterval: time.Minute}
+	p := &BruteForceProtector{config: cfg, failures: make(map[string]*FailureRecord), bannedIPs: make(map[string]*BanRecord)}
+	a, b, c := "10.0.0.1", "10.0.0.2", "10.0.0.3"
+	p.BanIP(a, 0, "permanent")
+	db := int64(verif_Byte()) + 1
+	dc := int64(verif_Byte()) + 1
+	p.BanIP(b, time.Duration(db), "temporary")
+	p.BanIP(c, time.Duration(dc), "temporary")
+	n := verif_IntRange(1, 2)
+	for i := 0; i < n; i++ {
+		now += int64(verif_Byte())
+		verif_ClockSet(now)
+		verif_Assume(now != c18Base+db && now != c18Base+dc)
+		p.cleanup()
+		verif_MaybeRunPending()
+		ba, _ := p.IsBanned(a)
+		verif_Assert("C18.two.permanent_ban_survives", ba)
+		bb, _ := p.IsBanned(b)
+		verif_Assert("C18.two.temporary_ban_b", bb == (now < c18Base+db))
+		bc, _ := p.IsBanned(c)
+		verif_Assert("C18.two.temporary_ban_c", bc == (now < c18Base+dc))
+		if !bb && bc {
+			verif_Cover("C18.two.one_expired_one_live")
+		}
+	}
+	verif_Cover("C18.two.done")
+}
